@@ -735,6 +735,18 @@ def plan(cs, tier, seed):
 
 def run(tier):
     t0 = time.time()
+    # unbounded proof of the control skeleton's contract (all n, m, outcome sequences), concurrently with the rest
+    from .. import apalache
+    proof = apalache.Proof("Ind_LoopControl")
+    try:
+        return _run(tier, t0, proof)
+    finally:
+        for p in proof.jobs.values():
+            if p.poll() is None:
+                p.kill()
+
+
+def _run(tier, t0, proof):
     wd = tla.make_build_dir(PROP)
     try:
         cs, stats = kf.run_models(PROP, wd, tier)
@@ -792,6 +804,7 @@ def run(tier):
         "checker_cmd": "tlc MC_Krylov.tla (Krylov.tla, LoopControl.tla, generated KrylovCatalog.tla) ; "
                        "tlc MC_LoopControl.tla ; tlc Trace_LoopControl.tla",
     }
+    cov["unbounded_proof"] = proof.finish()
     return common.finish(PROP, tier, t0, cov, viol, ASSUMPTIONS)
 
 
